@@ -6,6 +6,8 @@ CONSTANTS
   Contents = {"shallow"}
   Ops = {"Check","Example","GetAST","Len","Used","OpenAPI"}
   Registers = TRUE
+  Sharing = FALSE
+  Plan = ""
   MaxCalls = 3
 INVARIANTS TypeOK Emit
 PROPERTIES FrozenRegsStable
